@@ -26,8 +26,20 @@ type Loaded struct {
 
 var (
 	repoDir  = envOr("VERIF_REPO", "/repo")
-	verifDir = envOr("VERIF_DIR", "/verif")
+	verifDir = envOr("VERIF_DIR", defaultVerifDir())
 )
+
+// defaultVerifDir: the current directory when it looks like the framework
+// root (the manifest commands run with cwd=/verif; background runs use a
+// snapshot elsewhere), otherwise /verif.
+func defaultVerifDir() string {
+	if wd, err := os.Getwd(); err == nil {
+		if st, err := os.Stat(filepath.Join(wd, "harness", "support.go.txt")); err == nil && !st.IsDir() {
+			return wd
+		}
+	}
+	return "/verif"
+}
 
 func envOr(k, d string) string {
 	if v := os.Getenv(k); v != "" {
